@@ -65,6 +65,9 @@ struct Daemon {
     w_gen_odd: bool,
     pubs: usize,
     msgs_delivered: usize,
+    /// injected stall time suffered by threads other than the poller since the writer last had
+    /// nothing pending (each second of stall legitimately queues one more outcome)
+    stall_since_caught_up_ns: i64,
 }
 
 #[derive(Clone, Debug, Default)]
@@ -158,6 +161,9 @@ impl BState {
         let phc_cfg = self.cfg.phc;
         let d = &mut self.daemons[di];
         d.pubs += 1;
+        if d.pubs >= d.sent.len() {
+            d.stall_since_caught_up_ns = 0;
+        }
         let inc = d.inc;
         let Some(pi) = d.cur_msg.take() else {
             self.out.violate(&["C08"], "publication_without_message", "extra".into(), format!("daemon incarnation {inc} published {rec:?} without a poll outcome having been delivered"));
@@ -401,6 +407,21 @@ impl BState {
                 probes.push("probe.non_sync_outcome_after_sync");
                 if (rec.bound, (rec.as_of_s, rec.as_of_ns)) != (prev_bound, prev_as_of) {
                     bad.push("not_frozen");
+                    // a bound derived from this report was published after all: it must then be the
+                    // formula's value (C07 speaks of every report the daemon derives a bound from)
+                    if let (MsgKind::Data, Some(t)) = (kind, &tracking) {
+                        if rec.bound != prev_bound {
+                            if let Some(exp) = bound_formula(t.offset, t.delay, t.disp) {
+                                let phc = match info.as_ref().map(|i| i.phc) {
+                                    Some(PhcState::Present(v)) if phc_cfg != 0 && t.ref_id == PHC_REFID => v as i128,
+                                    _ => 0,
+                                };
+                                if (rec.bound as i128 - (exp.ceil + phc)).abs() > 1 {
+                                    viol.push((vec!["C07"], "bound_formula", "on_non_sync_report".into(), format!("a non-synchronised report refreshed the published bound to {} ns; the formula on that report gives {} ns", rec.bound, exp.ceil + phc)));
+                                }
+                            }
+                        }
+                    }
                 }
             }
             if !bad.is_empty() {
@@ -602,7 +623,13 @@ impl BState {
                 }
             }
             // C01: containment of true time at the instant the realtime clock was read
-            if premises_hold && (status == 1 || status == 2) {
+            // a record the harness itself planted in the initial file is not a measurement of this
+            // world: the premises of C01 say nothing about it
+            let planted = self.cfg.init_file != crate::world_a::Corrupt::None && rec == crate::world_a::rec_of(0);
+            if planted {
+                self.out.probe("probe.call_on_planted_initial_record_not_judged_for_C01");
+            }
+            if premises_hold && !planted && (status == 1 || status == 2) {
                 let t_true = rt.2 as i128 + t0;
                 let lag = (mono.2 - mono.3).max(0) as i128;
                 let allow = if lag > 0 { (lag * d as i128 + NS - 1) / NS + 1 } else { 0 };
@@ -692,8 +719,11 @@ impl BState {
                     }
                     0
                 };
-                // C05
+                // C05 (stored bounds >= 0: the physically meaningful range)
                 let want_half = half_width(rec.bound, rec.drift, age);
+                if rec.bound < 0 {
+                    return v;
+                }
                 if earliest + latest != 2 * real {
                     v.push((vec!["C05"], "not_centred", "centre".into(), format!("earliest {earliest} + latest {latest} != 2 x realtime reading {real}")));
                 }
@@ -826,6 +856,7 @@ impl Observer for BObserver {
                     w_gen_odd: false,
                     pubs: 0,
                     msgs_delivered: 0,
+                    stall_since_caught_up_ns: 0,
                 });
                 s.h(json!({"daemon_start": inc, "t": now}));
                 return;
@@ -875,6 +906,9 @@ impl Observer for BObserver {
             EvKind::Kill => s.daemons[di].killed = true,
             EvKind::Delay => {
                 let d = &mut s.daemons[di];
+                if Some(ev.tid) != d.poller {
+                    d.stall_since_caught_up_ns += ev.a as i64;
+                }
                 if d.death.is_some() {
                     d.allowance += ev.a as i64;
                 }
@@ -953,6 +987,14 @@ impl Observer for BObserver {
                     if n > 0 && d.polls[n - 1].msg.is_some() && d.polls[n - 1].send_at.is_none() {
                         d.polls[n - 1].send_at = Some(now);
                         d.sent.insert((ev.a, ev.b), n - 1);
+                        // C08 liveness: outcomes are published, not piled up (injected stalls are at
+                        // most 5 s, i.e. a backlog of a handful of 1 s polls)
+                        let backlog = d.sent.len().saturating_sub(d.pubs);
+                        let allowed = 15 + (d.stall_since_caught_up_ns / 1_000_000_000) as usize * 2;
+                        if backlog == allowed && d.death.is_none() && !d.killed {
+                            let inc = d.inc;
+                            s.out.violate(&["C08", "C04"], "outcomes_pile_up_unpublished", "backlog".into(), format!("incarnation {inc}: {backlog} poll outcomes have been sent to the writer and not published (writer stuck in start-up or not consuming)"));
+                        }
                     }
                 }
             }
